@@ -528,7 +528,7 @@ class Interp(EvalMixin):
     def _validated(self, st: State, ref: Ref, to) -> bool:
         """True when the last trace event is a validate of exactly this object's transition."""
         lv = st.frames[st.cur].get("__validated__")
-        return lv == (ref.oid, to)
+        return bool(lv) and lv[0] == ref.oid
 
     def _ctx_event(self, st: State, sub: ast.Subscript, op: str, stmt, val=None) -> None:
         # X.context[KEY] (=|del)
